@@ -280,6 +280,64 @@ func RunRouter(env *Env, prefix, in, out string) error {
 				})
 			}
 		}
+		// non-canonical spellings of every registered resource (doubled slash, dot segments, trailing slash, letter case):
+		// whatever the router makes of them, a request without an acceptable token is not served
+		for _, ri := range router.Routes() {
+			path := ri.Path
+			path = strings.ReplaceAll(path, ":ChargingDataRef", ref)
+			path = strings.ReplaceAll(path, ":rechargingInfo", supi+"_1")
+			path = strings.ReplaceAll(path, ":OfflineChargingDataRef", "x")
+			path = strings.ReplaceAll(path, ":subscriptionId", "x")
+			second := strings.Index(path[1:], "/") + 1 // the slash after the service name
+			if second <= 0 {
+				continue
+			}
+			spellings := [][2]string{
+				{"lead2", "/" + path},
+				{"mid2", path[:second] + "/" + path[second:]},
+				{"dot", path[:second] + "/." + path[second:]},
+				{"leaddot", "/." + path},
+				{"dotdot", "/x/.." + path},
+				{"trail", path + "/"},
+				{"upper", strings.ToUpper(path[:second]) + path[second:]},
+				{"last2", path[:strings.LastIndex(path, "/")] + "/" + path[strings.LastIndex(path, "/"):]},
+			}
+			for _, sp := range spellings {
+				for _, k := range []string{"absent", "garbage", "foreignkey"} {
+					before := snapshot()
+					rec := httptest.NewRecorder()
+					var rb []byte
+					if ri.Method == "POST" || ri.Method == "PUT" {
+						rb = []byte(upd)
+					}
+					req := httptest.NewRequest(ri.Method, "http://chf.example"+sp[1], bytes.NewReader(rb))
+					req.Header.Set("Content-Type", "application/json")
+					if tokens[k] != "" {
+						req.Header.Set("Authorization", tokens[k])
+					}
+					done := make(chan struct{})
+					go func() { defer close(done); router.ServeHTTP(rec, req) }()
+					status := -1
+					select {
+					case <-done:
+						status = rec.Code
+					case <-time.After(20 * time.Second):
+					}
+					effects := []string{}
+					if snapshot() != before {
+						effects = append(effects, "state")
+					}
+					if len(env.TakeNotifs()) > 0 {
+						effects = append(effects, "notification")
+					}
+					seq++
+					emit(map[string]any{
+						"trace": c.ID, "seq": seq, "action": "spell", "method": ri.Method, "route": ri.Path, "tok": k, "spelling": sp[0],
+						"status": status, "effects": effects,
+					})
+				}
+			}
+		}
 		self.OAuth2Required = false
 	}
 	return nil
